@@ -8,7 +8,8 @@ ASSUMPTIONS = ['http.Header values are built through Header.Add/Set (canonical k
                'request URL is an absolute https URL (the reader enforces it, the writer does not: DESIGN O1)']
 RULE = ('staged: real ECDSA signing by the harness (P-256/P-384) of exchanges (3 versions x record sizes x payload lengths 0,1,k*rs-1,k*rs,k*rs+1 x header sets with mixed case and repeated values), '
         'then compared ops sxg.write, sxg.read of the written file, sxg.verify before and after the round trip at t = date, mid, expires; plus length boundaries 65535/65536 (URL), 16384/16385 (signature), '
-        '524288/524289 and 2^24 (thorough) and bigendian ops; non-trivial = compared op on a signed exchange')
+        '524288/524289 and 2^24 (thorough) and bigendian ops; single-field edge families through the whole pipeline: request methods in every letter case / with bytes a case mapping changes, '
+        'every named status code and its unnamed neighbours without freshness information / with public / with explicit freshness, IsCacheable over all codes; non-trivial = compared op on a signed exchange')
 EXHAUSTIVE = {}
 
 signature = Base.signature; explain = Base.explain
@@ -29,6 +30,62 @@ def classify(op, m):
     if t[0].startswith('sxg.'):
         return f'{t[0]}:{t[1] if t[0] != "sxg.read" else "file"}:{m.split(" ")[0]}'
     return f'{t[0]}:{m.split(" ")[0]}'
+
+
+KNOWN_STATUS = [100, 101, 102, 103] + list(range(200, 209)) + [226] + list(range(300, 309)) + list(range(400, 419)) + list(range(421, 427)) + [428, 429, 431, 451] + \
+    list(range(500, 509)) + [510, 511]
+METHODS = [b'GET', b'HEAD', b'get', b'head', b'Get', b'gET', b'Head', b'HEAd', b'purge', b'POST', b'post', b'', b'G\xc3\x89T', b'g\xc3\xa9t', b'\xc4\xb1', b'\xc5\xbft', b'get\xff', b'GET ', b'GET\x00', b'M-Search']
+
+
+def field_families(ctx, rng, k, certurl, vurl, date, expires, thorough):
+    """mi (compared) -> sign (real code) -> Signature header / signed message against the model -> write (compared) -> read (compared) ->
+    verify before and after (compared) for exchanges that differ from a plain one in ONE field walked over its edge values:
+    * the request method (b1/b2 carry it as signed bytes; the reader has to hand back those bytes, whatever their letter case),
+    * the status code: every code net/http names and the unnamed ones next to them, with no freshness information (b3 consults the table
+      of codes cacheable by default: each entry and each neighbour of an entry), with `public`, and a few with explicit freshness."""
+    ct = (b'Content-Type', [b'text/html'])
+    exl = []
+    for ver in ('b1', 'b2'):
+        for mth in METHODS:
+            exl.append(ex(ver, b'https://example.com/m', mth, [(b'Accept', [b'*/*'])], 200, [ct], b'', b'method ' + mth))
+    for mth in (b'GET', b'get', b'HEAD', b'purge'):
+        exl.append(ex('b3', b'https://example.com/m', mth, [], 200, [ct], b'', b'method ' + mth))
+    default_cacheable = [200, 203, 204, 206, 300, 301, 404, 405, 410, 414, 501]
+    unnamed = [0, 99, 199, 209, 299, 306, 309, 399, 419, 499, 509, 512, 599, 600, 999]
+    fresh = [[(b'Cache-Control', [b'max-age=60'])], [(b'Expires', [b'Thu, 01 Feb 2018 00:00:00 GMT'])], [(b'Cache-Control', [b'no-store'])], [(b'Cache-Control', [b's-maxage=60, private'])]]
+    for st in KNOWN_STATUS + unnamed:
+        exl.append(ex('b3', b'https://example.com/s', b'GET', [], st, [ct], b'', b'status %d' % st))
+        if st in default_cacheable or st in (201, 302, 308, 500, 502, 0, 999) or thorough:
+            exl.append(ex('b3', b'https://example.com/s', b'GET', [], st, [ct, (b'Cache-Control', [b'public'])], b'', b'status %d public' % st))
+        if st in (200, 308, 500, 501):
+            for f in fresh:
+                exl.append(ex('b3', b'https://example.com/s', b'GET', [], st, [ct] + f, b'', b'status %d fresh' % st))
+    for ver in ('b1', 'b2'):
+        for st in default_cacheable + [308, 302, 500, 0, 999]:
+            exl.append(ex(ver, b'https://example.com/s', b'GET', [], st, [ct], b'', b'status %d' % st))
+    ctx.both([f'sxg.mi {exs(e)} 16' for e in exl])
+    res = ctx.go([f'sxg.sign {exs(e)} 16 {k["cert"]} {k["key"]} {hexs(certurl)} {hexs(vurl)} {date} {expires}' for e in exl])
+    signed = [(parse_ex(r), k) for r in res if r and parse_ex(r)]
+    signed_checks(ctx, signed, certurl, vurl, date, expires, 'c02')
+    g, m = ctx.both([f'sxg.write {exs(e)}' for e, _ in signed])
+    ok = [(e, gr.split(' ')[1]) for (e, _), gr in zip(signed, g) if gr and gr.startswith('ok ')]
+    g, m = read_stage(ctx, [f for e, f in ok])
+    items = []
+    fetch = {certurl: k['chain']}
+    for (e, f), x in zip(ok, g):
+        b = parse_ex(x) if x else None
+        for t in [(date, 0), (expires, 0)]:
+            items.append((e, t, fetch))
+            if b and b != e: items.append((b, t, fetch))      # identical read-back: the verdict after the round trip is the one just compared
+    verify_stage(ctx, items)
+    # IsCacheable itself, over every status code (table look-ups are wrong one entry at a time)
+    st_tab = dict(p.split(':') for p in status_table(ctx).split(','))
+    cops = []
+    for st in sorted(int(c) for c in st_tab):       # 90 .. 619 and -1, 0, 999, 1000: the codes whose StatusText the oracle was asked for
+        for rs_ in ([ct], [ct, (b'Cache-Control', [b'public'])]):
+            e = ex('b3', b'https://example.com/s', b'GET', [], st, rs_, b'', b'x')
+            cops.append(f'sxg.cacheable {exs(e)} {st}:{st_tab[str(st)]}')
+    ctx.both(cops)
 
 
 def run(ctx):
@@ -121,6 +178,9 @@ def run(ctx):
     if not thorough:
         items = items[:1500]
     verify_stage(ctx, items)
+    # 4a. deterministic edge families of single FIELDS, each through the whole pipeline with its own verification budget (the cap above
+    #     never reaches them): request methods in every letter case / with bytes a case mapping would change, and every status code
+    field_families(ctx, rng, keys[0], certurl, vurl, date, expires, thorough)
     # 4b. maximum lifetime (exactly 7 days) across a daylight-saving change, verified with the process's local zone set to zones that
     #     do / do not change in that week: "every instant of [date, expires]" does not depend on where the verifier runs
     dops, dmeta = [], []
